@@ -94,11 +94,92 @@ def build():
           'all((t in targets) == any(o.target == t for o in bytecode) for t in every("Op"))',
       ], ghost_init=['starts = [0]'],
          ghost_end=['starts = starts + [i] if len(blocks) == len(starts) else starts'])},
+      asserts={'blocks.append(prev_block)': [
+          'all(blocks[len(blocks) - 1].code[p] == bytecode[starts[len(blocks) - 1] + p] for p in range(len(blocks[len(blocks) - 1].code)))',
+          'all(all(blocks[k].code[p] == bytecode[starts[k] + p] for p in range(len(blocks[k].code))) for k in range(len(blocks) - 1))']},
       result=SeqBlock,
       ghost={'blocks': SeqBlock, 'code': SeqOp, 'starts': S.Seq(S.INT), 'targets': S.SetOf(OptOp),
              'prev_block': S.Opt(Block)},
       ghost_out={'starts': S.Seq(S.INT)}))
   _order_nodes(T)
+  return [T, _compute_order_theory()]
+
+
+def _compute_order_theory():
+  """blocks.compute_order: the edges between the blocks.  Blocks are heap objects here (they are mutated
+  through aliases: block.connect_outgoing(target) writes target.incoming), so this is a second theory
+  with its own model of Block; _split_bytecode and order_nodes enter with the contracts proved above."""
+  T = Theory('C16')
+  T.append_frame_trigger = True
+  Op = S.Uninterp('Op')
+  OptOp = S.Opt(Op)
+  SeqOp = S.Seq(Op)
+  Ref = S.Uninterp('BlockRef')
+  SeqB, SetB = S.Seq(Ref), S.SetOf(Ref)
+  Ver = S.Tup(S.INT, S.INT)
+  T.sorts.update(Op=Op, BlockRef=Ref)
+  ZOp = Op.z3()
+  f_target = z3.Function('op_target', ZOp, OptOp.z3())
+  f_btarget = z3.Function('op_block_target', ZOp, OptOp.z3())
+  f_no_next = z3.Function('op_no_next', ZOp, z3.BoolSort())
+  f_index = z3.Function('op_index', ZOp, z3.IntSort())
+  T.attr_models[(Op.name, 'target')] = lambda ex, v: V(OptOp, f_target(v.t))
+  T.attr_models[(Op.name, 'block_target')] = lambda ex, v: V(OptOp, f_btarget(v.t))
+  T.attr_models[(Op.name, 'index')] = lambda ex, v: V(S.INT, f_index(v.t))
+  T.method_models[(Op.name, 'no_next')] = lambda ex, recv, a, k: V(S.BOOL, f_no_next(recv.t))
+  T.bind_heap(BLOCKS_PY, 'Block', Ref, collections.OrderedDict(id=S.INT, code=SeqOp, incoming=SetB, outgoing=SetB))
+  T.inline.add((BLOCKS_PY, 'Block.connect_outgoing'))
+  T.assumptions += [
+      'Block objects are modelled in a heap (one map per field, indexed by object reference): aliasing between blocks is exact',
+      'compute_order is proved for python_version < (3, 12) (the instance without the async-for / yield-from surgery calls); the edge loop '
+      'is the same code for every version',
+      'precondition: the block_target of a block\'s last instruction is the first instruction of some block (add_pop_block_targets; sampled natively)',
+      '_split_bytecode enters with (the heap rendering of) its contract proved in the first theory; order_nodes likewise',
+      'NOT proved for compute_order: that no edges other than fall-through / target / block_target edges are added (exactness); sampled natively',
+  ]
+  last = 'blocks[k].code[len(blocks[k].code) - 1]'
+  edge = lambda tgt: ('all(implies(%s is not None, any(b.code[0] == %s and b in blocks[k].outgoing for b in blocks)) for k in range(%%s))' % (tgt, tgt))
+  clauses = [
+      'all(implies(k + 1 < len(blocks) and not %s.no_next(), blocks[k + 1] in blocks[k].outgoing) for k in range(%%s))' % last,
+      edge('blocks[k].code[0].target'), edge(last + '.target'), edge(last + '.block_target'),
+      'all(all(implies(x in blocks[k].outgoing, blocks[k] in x.incoming) for x in every("BlockRef")) for k in range(%s))',
+  ]
+  split_post = [
+      'all(len(b.code) > 0 for b in result)',
+      'all(all(implies(j != k, result[j] != result[k] and result[j].code[0] != result[k].code[0]) for k in range(len(result))) for j in range(len(result)))',
+      'all(implies(o.target is not None and o.target in bytecode, any(b.code[0] == o.target for b in result)) for o in bytecode)',
+      'all(all(x in bytecode for x in b.code) for b in result)',
+      'all(all(x not in b.outgoing and x not in b.incoming for x in every("BlockRef")) for b in result)',
+  ]
+  T.add(Contract(BLOCKS_PY, '_split_bytecode', collections.OrderedDict(bytecode=SeqOp, processed_blocks=SetB, python_version=Ver),
+                 ensures=split_post, result=SeqB, verify=False,
+                 note='proved in the first theory (partition, targets start blocks); restated over heap blocks'))
+  T.add(Contract(CFGU_PY, 'order_nodes', collections.OrderedDict(nodes=SeqB),
+                 requires=['all(all(x in nodes for x in y.outgoing) for y in nodes)'],
+                 ensures=['implies(len(nodes) > 0, len(result) > 0 and result[0] == nodes[0])',
+                          'all(all(implies(j != k, result[j] != result[k]) for k in range(len(result))) for j in range(len(result)))',
+                          'all(any(result[k] in result[j].outgoing for j in range(k)) for k in range(1, len(result)))',
+                          'all(all(x in result for x in y.outgoing) for y in result)',
+                          'all(x in nodes for x in result)'],
+                 result=SeqB, verify=False, note='proved in the first theory (order, closure, reachability)'))
+  T.add(Contract(
+      BLOCKS_PY, 'compute_order', collections.OrderedDict(bytecode=SeqOp, python_version=Ver),
+      requires=['python_version < (3, 12)',
+                'all(implies(o.target is not None, o.target in bytecode) for o in bytecode)',
+                'all(implies(o.block_target is not None, any(p.target == o.block_target for p in bytecode)) for o in bytecode)'],
+      ensures=[c % 'len(blocks)' for c in clauses] + [
+          'implies(len(blocks) > 0, len(result) > 0 and result[0] == blocks[0])',
+          'all(all(x in result for x in y.outgoing) for y in result)',
+          'all(any(result[k] in result[j].outgoing for j in range(k)) for k in range(1, len(result)))'],
+      loops={0: Loop([c % 'i' for c in clauses] + [
+          'all(all(x not in blocks[k].outgoing for x in every("BlockRef")) for k in range(i, len(blocks)))',
+          'all(all(implies(x in b.outgoing, x in blocks) for x in every("BlockRef")) for b in blocks)',
+      ], index='i', havoc=['$H.Block.outgoing', '$H.Block.incoming'])},
+      asserts={'first_op_to_block = ': [
+          'all(implies(t in first_op_to_block, first_op_to_block[t] in blocks and first_op_to_block[t].code[0] == t) for t in every("Op"))',
+          'all(b.code[0] in first_op_to_block for b in blocks)']},
+      result=SeqB,
+      ghost={'blocks': SeqB, 'processed_blocks': SetB, 'first_op_to_block': S.DictOf(Op, Ref), 'next_block': S.Opt(Ref)}))
   return T
 
 
@@ -193,6 +274,9 @@ SURROUND = ['opcodes.build_opcodes / pyc.py (instruction indices, next/prev link
             'process_blocks.py']
 NATIVE_IN_QUICK = True
 MUTANTS = [
+    dict(name='edges_elif_last_target', file=BLOCKS_PY, old="    if last_op.target:\n      block.connect_outgoing(first_op_to_block[last_op.target])\n", new="    elif last_op.target:\n      block.connect_outgoing(first_op_to_block[last_op.target])\n"),
+    dict(name='edges_no_fallthrough_for_last_jump', file=BLOCKS_PY, old="    if next_block and not last_op.no_next():\n", new="    if next_block and not last_op.no_next() and not last_op.target:\n"),
+    dict(name='edges_incoming_not_recorded', file=BLOCKS_PY, old="    self.outgoing.add(target)\n    target.incoming.add(self)\n", new="    self.outgoing.add(target)\n"),
     dict(name='order_dup', file=CFGU_PY, old="    if node in seen:\n      continue\n    order.append(node)\n", new="    order.append(node)\n    if node in seen:\n      continue\n"),
     dict(name='order_skips_successors_in_seen_check', file=CFGU_PY, old="      if n not in queue:\n        queue[n] = predecessor_map[n] - seen\n", new="      if n not in queue and len(node.outgoing) < 3:\n        queue[n] = predecessor_map[n] - seen\n"),
     dict(name='order_wrong_root', file=CFGU_PY, old="  root = nodes[0]\n  predecessor_map", new="  root = nodes[-1]\n  predecessor_map"),
